@@ -1790,3 +1790,29 @@ T('k18_helper_guarded_by_peripheral_param', ['C18'], (META, GMAIN, '''        fo
         except Exception as e:
             return {'exc_content': repr(e)}
 '''))
+T('k18_second_call_guarded_by_own_result', ['C18'], (META, "            try:\n                cur_general_items = inject(peri.get_general_items, kwargs)\n",
+  "            try:\n                wants = inject(peri.render_main_page_html, kwargs) is not None\n                cur_general_items = inject(peri.get_general_items, kwargs) if wants else []\n"))
+T('k18_context_guarded_by_configuration_local', ['C18'], (META, "        self.page_title = page_title\n", "        self.page_title = page_title\n        self.skip_groups = ()\n"),
+  (META, GMAIN, '''        skipped = self.skip_groups
+        for peri in self.peripherals:
+            if peri.group_key in skipped:
+                continue
+            try:
+                peri_ctx = inject(peri.get_context, kwargs)
+            except Exception as e:
+                peri_ctx = {'exc_content': repr(e)}
+            full_ctx.setdefault(peri.group_key, {}).update(peri_ctx)
+        return full_ctx
+'''))
+B('k18_context_skipped_for_seen_groups', ['C18'], 'R18.c', (META, GMAIN, '''        seen = set()
+        for peri in self.peripherals:
+            if peri.group_key in seen:
+                continue
+            seen.add(peri.group_key)
+            try:
+                peri_ctx = inject(peri.get_context, kwargs)
+            except Exception as e:
+                peri_ctx = {'exc_content': repr(e)}
+            full_ctx.setdefault(peri.group_key, {}).update(peri_ctx)
+        return full_ctx
+'''))
